@@ -31,6 +31,12 @@ EtaCheck(c, e) ==
 
 EtaFails(e) == {c \in EtaChecks : ~EtaCheck(c, e)}
 
+\* op "eta_points": isolated long intervals (in.xs) for curve-free models: out.eta[i] = number_arrivals(xs[i])
+EtaPointsFails(e) ==
+    IF "eta" \notin DOMAIN e.out THEN {"returns"}
+    ELSE IF ~HasNoCurve(e.in.m) THEN {}
+    ELSE IF \A i \in 1..Len(e.in.xs) : e.out.eta[i] = EtaPt(e.in.m, e.in.xs[i]) THEN {} ELSE {"exact_at_long_intervals"}
+
 JitComposeFails(e) ==
     IF "ab" \notin DOMAIN e.out THEN {"returns"}
     ELSE IF e.out.ab = e.out.s THEN {} ELSE {"jitter_adds_up"}
